@@ -11,7 +11,7 @@ R20c  in pos_to_lineno_colno the column is pos - T[i] with the same raw index i
 """
 import ast
 from ..core import (AnalysisError, short, unparse, iter_own, call_name, call_recv, kwarg,
-                    is_self_attr, atomic_facts, parents, enclosing_stmt, const_value)
+                    is_self_attr, atomic_facts, parents, enclosing_stmt, const_value, enclosing_func)
 from . import gcommon
 from .. import affine, symex
 
@@ -321,6 +321,29 @@ def run(ctx):
     ctx.holds('R20j', exm_, None, '%d construction(s) with explicit line/column' % n_el, construct='explicit location scan',
               trivial=True)
 
+    # ---- R20k: who may move an error
+    ctx.rule('R20k', 'outside the error classes, a caught error\'s `pos` is never re-assigned unless its line and column are '
+                     're-assigned (or cleared) in the same block: the parse context fills in line/column only when they are '
+                     'missing, so a moved position would keep the line and column of the old one (exercised on a built-in '
+                     'example on every run)', 0)
+    ex2 = ast.parse('def f(w):\n try:\n  g()\n except E as e:\n  e.pos = w.first.pos\n  raise\n')
+    _sp(ex2)
+    if len(list(moved_error_positions(ex2))) != 1:
+        raise AnalysisError('R20k: the rule no longer fires on its built-in example')
+    n_mv = 0
+    for mod_ in sorted(repo.modules.values(), key=lambda m_: m_.name):
+        if mod_.name == exm_.name or mod_.name.endswith('__main__'):
+            continue
+        for st_, var_ in moved_error_positions(mod_.tree):
+            n_mv += 1
+            fq_ = enclosing_func(st_)
+            ctx.refuted('R20k', mod_, st_, '%s re-assigns %s.pos (%s) on a caught error without touching its lineno / colno: '
+                        'when the error was already located (it passed through an inner parse context) the report shows the '
+                        'new position together with the line and column of the old one'
+                        % (getattr(fq_, 'name', '<module>'), var_, short(st_, 60)),
+                        construct='%s: %s.pos re-assigned' % (getattr(fq_, 'name', '<module>'), var_))
+    ctx.holds('R20k', exm_, None, 'no caught error is moved outside the error classes', construct='moved error scan', trivial=True)
+
     return 'other', _expl()
 
 
@@ -545,6 +568,7 @@ def _r20c(ctx, u, f):
         ctx.unknown('R20c', u, f, str(e), construct='pos_to_lineno_colno')
         return
     n = 0
+    n_shared_res = [0]
     for cs in cases:
         if cs.polarity_of(lambda a: unparse(a) == pos + ' is None'):
             continue
@@ -560,6 +584,14 @@ def _r20c(ctx, u, f):
                 continue
             line, col = d['lineno'], d['colno']
             shape = 'dict'
+        elif isinstance(v, ast.Attribute) and unparse(v).startswith('self.'):
+            # an object kept on the calculator: every caller receives the same one
+            n_shared_res[0] += 1
+            ctx.refuted('R20c', u, cs.node, 'pos_to_lineno_colno returns %s, an object that lives on the calculator and is filled '
+                        'in again by the next lookup: every result handed out earlier (kept by a caller that locates several '
+                        'positions, e.g. the start and the end of a node) silently changes to the line and column of the '
+                        'latest position' % unparse(v), construct='return shared object %s' % unparse(v))
+            continue
         else:
             ctx.unknown('R20c', u, cs.node, 'return value %s is neither a pair nor a dict' % short(v),
                         construct='return shape')
@@ -619,7 +651,7 @@ def _r20c(ctx, u, f):
                    'line, offset of that kind of line)' % (
                        'the first line' if first else 'lines after the first', affine.show(cn),
                        pos, sub, off), construct=cons + ' column')
-    if n < 4:
+    if n + n_shared_res[0] < 4:
         raise AnalysisError('pos_to_lineno_colno: only %d result cases found (expected tuple/dict x '
                             'first/other line)' % n)
 
@@ -652,6 +684,15 @@ def explicit_location_sites(f):
     for cs in cases:
         c = cs.sub
         posk = kwarg(c, 'pos')
+        given = [nm for nm in ('lineno', 'colno') if kwarg(c, nm) is not None
+                 and not (isinstance(kwarg(c, nm), ast.Constant) and kwarg(c, nm).value is None)]
+        if len(given) == 1:
+            key = (id(cs.node), 'pair', False)
+            if key not in seen:
+                seen.add(key)
+                yield False, ('%s= is passed without %s=: the enclosing parse context completes the location only when BOTH are '
+                              'missing, so the error keeps a line and no column' % (
+                                  given[0], 'colno' if given[0] == 'lineno' else 'lineno')), cs.node
         for nm in ('lineno', 'colno'):
             v = kwarg(c, nm)
             if v is None or (isinstance(v, ast.Constant) and v.value is None):
@@ -682,3 +723,24 @@ def explicit_location_sites(f):
                 continue
             seen.add(key)
             yield ok, why, cs.node
+
+
+def moved_error_positions(tree):
+    """(statement, variable) for every `<e>.pos = ...` on the variable of an enclosing `except ... as <e>` whose handler
+    does not also assign <e>.lineno and <e>.colno"""
+    for h in ast.walk(tree):
+        if not (isinstance(h, ast.ExceptHandler) and h.name):
+            continue
+        stores = {}
+        for n in ast.walk(h):
+            if isinstance(n, ast.Attribute) and isinstance(n.ctx, ast.Store) and isinstance(n.value, ast.Name) \
+                    and n.value.id == h.name:
+                stores.setdefault(n.attr, []).append(n)
+        if 'pos' in stores and not ('lineno' in stores and 'colno' in stores):
+            for n in stores['pos']:
+                st = n
+                while not isinstance(st, ast.stmt):
+                    st = getattr(st, '_parent', None)
+                    if st is None:
+                        break
+                yield (st if st is not None else n), h.name
